@@ -284,3 +284,23 @@ def run(ctx):
                        'the path built here reads no rewritten text' if hit is None else
                        'the path built here is made from the result of %s (line %s), which rewrites the text of the path: a file whose name contains the rewritten characters is checkpointed and restored under a DIFFERENT path than the one the tool edits' % (hit.callee.rsplit('::', 1)[-1], hit.line), line=ln)
     ctx.floor('C14.8', 'path constructions between the tool argument and the checkpoint entry', n8, 10)
+
+    # ---------------------------------------------------------------- C14.9
+    ctx.rule('C14.9', 'a checkpoint is taken every time one is asked for: in the workspace-backed CheckpointHook::create every return is dominated by the call of Workspace::create_checkpoint (inlined helpers included) — no path answers with an earlier checkpoint ("nothing changed since") instead of snapshotting the files as they are now; the id announced before an edit must name the state right before that edit.')
+    from ..inline import inline_calls, contains
+    n9 = 0
+    for hp in P.trait_impl_items('rip_tools::runtime::CheckpointHook::create'):
+        h = P.fns.get(hp)
+        if h is None or not hp.startswith('<ripd::'):
+            continue
+        h = inline_calls(P, h, lambda body, callee, w_=contains(rx_calls=r'^rip_workspace::Workspace::create_checkpoint$'): callee.startswith('ripd::') and w_(body, callee), depth=2, note=ctx.note)
+        ctx.touch(h)
+        cc9 = h.calls(r'^rip_workspace::Workspace::create_checkpoint$')
+        n9 += 1
+        rets = [r_ for r_ in h.returns() if r_ in h.reachable()]
+        ok9 = bool(cc9) and all(any(h.dom(c_.bb, r_) for c_ in cc9) for r_ in rets)
+        ctx.ob('C14.9', h, 'every-request-snapshots', ok9,
+               'every return of the hook is dominated by Workspace::create_checkpoint' if ok9 else
+               ('a return of the hook is reachable WITHOUT Workspace::create_checkpoint: the request is answered with something other than a snapshot taken now (a reused / cached checkpoint names an older state — rewinding to it does not restore the bytes the file had before this edit)' if cc9 else 'the hook never calls Workspace::create_checkpoint'),
+               line=cc9[0].line if cc9 else h.line)
+    ctx.floor('C14.9', 'workspace-backed CheckpointHook::create implementations', n9, 1)
